@@ -102,7 +102,11 @@ def recvLoopG (test : Cfg → Bytes → Bytes → Bool) (sockTimeout : Bool) (cf
         if test cfg (acc ++ bs) bs then ⟨.frame (acc ++ bs), k + 1⟩
         else recvLoopG test sockTimeout cfg accepted clock script' (acc ++ bs) (k + 1)
 
-def recvLoop := recvLoopG endTest true
+/-- after the F8 repair the accepted socket has `settimeout(timeout_receive)` and `socket.timeout`
+from `recv` becomes BoboDistributedTimeoutError. -/
+def sockTimeout : Bool := true
+
+def recvLoop := recvLoopG endTest sockTimeout
 def recvLoopOld := recvLoopG endTestOld false
 
 /-! ### `_split_plaintext` -/
